@@ -142,6 +142,21 @@ pub fn filter_event(buf: &[u8], cfg: &DltFilterConfig, sh: bool, borrowed: bool)
     json!({"op": "filter", "buf": proj::bytes(buf), "sh": sh, "flt": [proj::filter_config(cfg)],
            "res": parse_res(buf, Some(&processed), sh, false), "res0": parse_res(buf, None, sh, false)})
 }
+pub fn junkparse_event(junk: &[u8], msg: &[u8], sfx: &[u8], cfg: Option<&DltFilterConfig>) -> J {
+    let processed: Option<ProcessedDltFilterConfig> = cfg.map(|c| c.into());
+    let mut with = junk.to_vec();
+    with.extend(msg);
+    with.extend(sfx);
+    let mut without = msg.to_vec();
+    without.extend(sfx);
+    json!({"op": "junkparse", "junk": proj::bytes(junk), "msg": proj::bytes(msg), "sfx": proj::bytes(sfx), "flt": proj::opt(&cfg, |c| proj::filter_config(c)),
+           "a": parse_res(&with, processed.as_ref(), true, false), "b": parse_res(&without, processed.as_ref(), true, false)})
+}
+pub fn prefixes_event(b: &[u8], sh: bool, ks: &[usize], calls: &mut u64) -> J {
+    let cuts: Vec<J> = ks.iter().map(|k| { *calls += 1; parse_res(&b[..*k], None, sh, false) }).collect();
+    let ccuts: Vec<J> = if sh { ks.iter().map(|k| { *calls += 1; consume_res(&b[..*k]) }).collect() } else { vec![] };
+    json!({"op": "prefixes", "full": proj::bytes(b), "sh": sh, "ks": ks, "cuts": cuts, "ccuts": ccuts})
+}
 fn item_of(buf: &[u8], sh: bool) -> Option<Message> {
     match catch_unwind(AssertUnwindSafe(|| dlt_message(buf, None, sh))) {
         Ok(Ok((_, ParsedMessage::Item(m)))) => Some(m),
@@ -152,7 +167,7 @@ fn item_of(buf: &[u8], sh: bool) -> Option<Message> {
 // ------------------------------------------------------------------------------------------------
 pub fn random_filter(r: &mut Rng, m: Option<&Message>) -> DltFilterConfig {
     // ids drawn from the message itself (so that "allowed" cases occur) and from a small pool
-    let mut pool: Vec<String> = vec!["".into(), "a".into(), "APP".into(), "ECU".into(), "é".into(), "ZZZZ".into()];
+    let mut pool: Vec<String> = vec!["".into(), "a".into(), "APP".into(), "ECU".into(), "é".into(), "ZZZZ".into(), "APP12".into(), "DIAGNOSTICS".into(), "APP ".into()];
     if let Some(m) = m {
         if let Some(x) = &m.extended_header {
             pool.push(x.application_id.clone());
@@ -328,9 +343,21 @@ pub fn record(mode: &str, seed: u64, n: usize, out: &mut Out) {
                 let m = gen::message(&mut r, &MsgOpts { storage: None, big, max_args: 3 });
                 let sh = m.storage_header.is_some();
                 let b = m.as_bytes();
-                let cuts: Vec<J> = (0..b.len()).map(|k| { out.calls += 1; parse_res(&b[..k], None, sh, false) }).collect();
-                let ccuts: Vec<J> = if sh { (0..b.len()).map(|k| { out.calls += 1; consume_res(&b[..k]) }).collect() } else { vec![] };
-                out.emit(json!({"op": "prefixes", "full": proj::bytes(&b), "sh": sh, "cuts": cuts, "ccuts": ccuts}), true);
+                let ks: Vec<usize> = (0..b.len()).collect();
+                { let mut c = 0u64; let e = prefixes_event(&b, sh, &ks, &mut c); out.calls += c; out.emit(e, true); }
+                if i % 60 == 11 {
+                    // a maximal message (LEN = 65519 .. 65535): cuts in the headers, strided through the payload, and the last 40
+                    let len = *r.pick(&[65519usize, 65520, 65534, 65535]);
+                    let shm = r.below(4) != 0;
+                    let mut x = if shm { b"DLT\x01\0\0\0\0\0\0\0\0ECU\0".to_vec() } else { vec![] };
+                    x.extend([0x20u8, 0]);
+                    x.extend((len as u16).to_be_bytes());
+                    x.extend(r.bytes(len - 4));
+                    let mut ks: Vec<usize> = (0..40.min(x.len())).collect();
+                    ks.extend((40..x.len() - 40).step_by(4099));
+                    ks.extend(x.len() - 40..x.len());
+                    { let mut c = 0u64; let e = prefixes_event(&x, shm, &ks, &mut c); out.calls += c; out.emit(e, true); }
+                }
             }
         }
         // C06: storage-header search, junk in front of a message, junk between the messages of a stream
@@ -350,8 +377,21 @@ pub fn record(mode: &str, seed: u64, n: usize, out: &mut Out) {
                 without.extend(&sfx);
                 out.calls += 3;
                 out.emit(forward_event(&with), true);
-                out.emit(json!({"op": "junkparse", "junk": proj::bytes(&junk), "msg": proj::bytes(&b), "sfx": proj::bytes(&sfx),
-                                "a": parse_res(&with, None, true, false), "b": parse_res(&without, None, true, false)}), true);
+                let cfg = if r.coin() { Some(random_filter(&mut r, Some(&m))) } else { None };
+                out.emit(junkparse_event(&junk, &b, &sfx, cfg.as_ref()), true);
+                if out.events % 97 == 5 {
+                    // junk whose end brings the pattern across a power-of-two block boundary (256 B .. 128 KiB)
+                    let k = 8 + r.below(10) as u32;
+                    let jl = (1usize << k) - r.below(5) as usize;
+                    let mut big_junk: Vec<u8> = (0..jl).map(|_| *r.pick(&[b'X', 0u8, b'D', b'L', b'T', 7u8])).collect();
+                    // make it pattern-free by construction: never a 0x01 byte in it
+                    for x in big_junk.iter_mut() { if *x == 1 { *x = 2; } }
+                    let mut w = big_junk.clone();
+                    w.extend(&b);
+                    out.calls += 3;
+                    out.emit(forward_event(&w), true);
+                    out.emit(junkparse_event(&big_junk, &b, &sfx, None), true);
+                }
                 // a stream junk msg junk msg ... tail
                 let np = 1 + r.below(3) as usize;
                 let mut parts = vec![];
@@ -709,6 +749,14 @@ pub fn hostile_inputs(r: &mut Rng, big: usize) -> Vec<(Vec<u8>, bool)> {
         p.extend(r.bytes(66000));
         v.push((mk(&p, 1, 65535), false));
         v.push((mk(&[], 255, 14), false));
+        // complete maximal messages behind a storage header (16 + LEN exceeds 16 bits), followed by more data
+        for len in [65519u16, 65520, 65534, 65535] {
+            let mut x = b"DLT\x01\0\0\0\0\0\0\0\0ECU\0".to_vec();
+            x.extend([0x20u8, 0]);
+            x.extend(len.to_be_bytes());
+            x.extend(r.bytes(len as usize - 4 + 9));
+            v.push((x, true));
+        }
         v.push((r.bytes(70000), r.coin()));
         let mut x = b"DLT\x01".to_vec();
         x.extend(r.bytes(69000));
@@ -748,22 +796,16 @@ pub fn rerun(ev: &J) -> J {
         }
         "prefixes" => {
             let b = unproj::bytes(&ev["full"]);
-            let cuts: Vec<J> = (0..b.len()).map(|k| parse_res(&b[..k], None, sh, false)).collect();
-            let ccuts: Vec<J> = if sh { (0..b.len()).map(|k| consume_res(&b[..k])).collect() } else { vec![] };
-            json!({"op": "prefixes", "full": ev["full"].clone(), "sh": sh, "cuts": cuts, "ccuts": ccuts})
+            let ks: Vec<usize> = ev["ks"].as_array().unwrap().iter().map(|k| k.as_u64().unwrap() as usize).collect();
+            let mut c = 0u64;
+            prefixes_event(&b, sh, &ks, &mut c)
         }
         "nopanic" => { let mut e2 = ev.clone(); e2["op"] = ev["api"].clone(); nopanic(rerun(&e2)) }
         "reser3" => { let mut e = reser_event(&unproj::message(&ev["m"]), true); e["op"] = json!("reser3"); e }
         "frame" => frame_event(&buf(), cfg.as_ref(), sh, ev["api"].as_str().unwrap()),
         "filter" => filter_event(&buf(), cfg.as_ref().unwrap(), sh, true),
         "ids" => { let mut e = parse_event(&buf(), None, sh); e["op"] = json!("ids"); e }
-        "junkparse" => {
-            let (junk, msg, sfx) = (unproj::bytes(&ev["junk"]), unproj::bytes(&ev["msg"]), unproj::bytes(&ev["sfx"]));
-            let mut with = junk.clone(); with.extend(&msg); with.extend(&sfx);
-            let mut without = msg.clone(); without.extend(&sfx);
-            json!({"op": "junkparse", "junk": ev["junk"].clone(), "msg": ev["msg"].clone(), "sfx": ev["sfx"].clone(),
-                   "a": parse_res(&with, None, true, false), "b": parse_res(&without, None, true, false)})
-        }
+        "junkparse" => junkparse_event(&unproj::bytes(&ev["junk"]), &unproj::bytes(&ev["msg"]), &unproj::bytes(&ev["sfx"]), cfg.as_ref()),
         "recover" => {
             let mut stream = vec![];
             let mut parts = vec![];
